@@ -3,6 +3,7 @@
 Parts (each in harness/props/c19_<part>.py, all driven from here):
   pack    (H) pack_bitlist op DAG                      Model/C19Pack.v
   affine  (T) canonicalize_affine.py                   Gen/CanonAffine.v (translator/py2coq.py) + (H) Model/XdslAffine.v
+  stride  (T) StridePattern.canonicalize                Gen/StrideCanon.v + semantics Model/C19Stride.v
 Every part exposes  l1_prepare(ctx) -> (coq texts, finish(results) -> [disagreement])   l2(ctx, deep) -> [failure]   replay(ctx, failure) -> [fail].
 """
 from __future__ import annotations
@@ -12,8 +13,9 @@ import importlib
 import vlib
 
 PROPERTY = "C19"
-PART_NAMES = ["pack", "affine"]
-MODEL_TARGETS = ["Model/C19Pack.vo", "Model/PyLib.vo", "Model/XdslAffine.vo", "Gen/CanonAffine.vo"]
+PART_NAMES = ["pack", "affine", "stride"]
+MODEL_TARGETS = ["Model/C19Pack.vo", "Model/PyLib.vo", "Model/XdslAffine.vo", "Gen/CanonAffine.vo",
+                 "Model/C19Stride.vo", "Gen/StrideCanon.vo"]
 RULE = ("pack: 0-9 (value, offset) pairs, each a Python int (edge values of the width, negative, out of range) or "
         "one of 4 pre-existing SSA values/ops with arbitrary run-time contents, dtype in {8,16,32,64}, length "
         "mismatches; non-trivial = at least two fields")
